@@ -105,6 +105,16 @@ func oracleC07(r *Rng, n int, thorough bool, seeds []string) *OracleResult {
 				what = "independent RFC decoder reads a different packet: " + d
 				return
 			}
+			// equal contents, fields laid out as views of one record (a caller that keeps a
+			// record per client and hands out sub-slices): same bytes, also the second time
+			// (seeded change C07-13: chaddr zero-padded with append, into the caller's record)
+			if f := flatPkt4(p); !bytes.Equal(f.ToBytes(), b) {
+				what = "a packet with equal contents whose fields are views of one array encodes to different bytes"
+				return
+			} else if !bytes.Equal(f.ToBytes(), b) {
+				what = "a packet whose fields are views of one array encodes to different bytes the second time"
+				return
+			}
 			// same contents built in another insertion order, fresh map
 			keys := make([]uint8, 0, len(p.Options))
 			for k := range p.Options {
